@@ -88,5 +88,48 @@ pub open spec fn same_but_ecu(a: DltMessage, b: DltMessage) -> bool {
 //@|    let ghost k0 = msg.ecu;
 //@ end
 
+// ---- CTID pseudonyms: the statement `let new_ctid = if apid_data.ctid_map.contains_key(cur_ctid) { .. } else { .. };` of
+// AnonymizePlugin::apid_ctid_anon (one map per ECU and APID; same numbering scheme with prefix "C") ----
+pub trait VCtidMap: Sized {
+    spec fn m(&self) -> Map<DltChar4, DltChar4>;     // CTID -> pseudonym
+    fn contains_key(&self, k: &DltChar4) -> (r: bool) ensures r == self.m().dom().contains(*k);
+    fn get(&self, k: &DltChar4) -> (r: Option<&DltChar4>)
+        ensures r is Some <==> self.m().dom().contains(*k), r is Some ==> *r->Some_0 == self.m()[*k];
+    fn len(&self) -> (r: usize) requires self.m().dom().finite(), ensures r == self.m().dom().len();
+    fn insert(&mut self, k: DltChar4, v: DltChar4) ensures final(self).m() == old(self).m().insert(k, v);
+}
+pub open spec fn ctid_wf<M: VCtidMap>(mp: &M) -> bool {
+    &&& mp.m().dom().finite()
+    &&& forall|k: DltChar4| mp.m().dom().contains(k) ==> exists|i: int| 1 <= i <= mp.m().dom().len() && #[trigger] spec_pseudo(0x43, i) == mp.m()[k]
+}
+pub open spec fn ctid_injective<M: VCtidMap>(mp: &M) -> bool {
+    forall|a: DltChar4, b: DltChar4| mp.m().dom().contains(a) && mp.m().dom().contains(b) && #[trigger] mp.m()[a] == #[trigger] mp.m()[b] ==> a == b
+}
+#[verifier::external_body]
+pub fn vx_fmt_c03(n: usize) -> (r: VxText) ensures r.n == n { unimplemented!() }
+#[verifier::external_body]
+pub fn vx_ctid_from_text(t: &VxText) -> (r: VxChar4Result) ensures r.v == spec_pseudo(0x43, t.n as int) { unimplemented!() }
+//@ extract src/plugins/anonymize.rs region `let new_ctid = if` .. `let new_ctid = if` in AnonymizePlugin::apid_ctid_anon
+//@   rules R1 R3 R4 R5
+//@   sig pub fn ctid_anon<M: VCtidMap>(ctid_map: &mut M, cur_ctid: &DltChar4) -> (r: DltChar4)
+//@   tail `new_ctid`
+//@   sub R12 `apid_data.ctid_map` => `ctid_map` *
+//@   sub R11 `DltChar4::from_str(` => `vx_ctid_from_text(`
+//@   sub R11 `format!("C{:03}",` => `vx_fmt_c03(`
+//@   sub R11 `.unwrap_or_else(|_| DltChar4::from_buf(b"C99A"))` => `.vx_or_fallback()`
+//@   spec
+//@|    requires
+//@|        ctid_wf(old(ctid_map)), ctid_injective(old(ctid_map)),
+//@|        old(ctid_map).m().dom().len() < 0x1_0000_0000,
+//@|        old(ctid_map).m().dom().len() < 999, //@only:excl
+//@|    ensures
+//@|        ctid_wf(final(ctid_map)), // O:anon.ctid.wf
+//@|        final(ctid_map).m().dom().contains(*cur_ctid) && r == final(ctid_map).m()[*cur_ctid], // O:anon.ctid.function
+//@|        forall|k: DltChar4| old(ctid_map).m().dom().contains(k) ==> final(ctid_map).m().dom().contains(k) && final(ctid_map).m()[k] == old(ctid_map).m()[k], // O:anon.ctid.stable
+//@|        ctid_injective(final(ctid_map)), // O:anon.ctid.injective
+//@   hint start
+//@|    broadcast use axiom_pseudo_injective, axiom_pseudo_truncated;
+//@ end
+
 fn main() {}
 } // verus!
